@@ -27,6 +27,8 @@ def const(name, typ=r"[\w:<>]+"):
 
 # (coq name, file, regex)
 CONSTS = [
+    # C08: capacity of the per-protocol event channel (ProtocolSet -> TransportService)
+    ("DEFAULT_CHANNEL_SIZE", "src/lib.rs", const("DEFAULT_CHANNEL_SIZE")),
     # C17
     ("DEFAULT_MAX_RECORDS", KAD + "config.rs", const("DEFAULT_MAX_RECORDS")),
     ("DEFAULT_MAX_RECORD_SIZE_BYTES", KAD + "config.rs", const("DEFAULT_MAX_RECORD_SIZE_BYTES")),
